@@ -229,7 +229,7 @@ PROPS.update({
     project=proj_first2,
     nontrivial=lambda c: bool(c.tags & {'boundary', 'unrepresentable'}),
     shrink=False,
-    rule="the release `clockbound` binary built from the working tree is started in a private mount namespace (tmpfs /run) with --max-drift-rate X for X in {omitted, 0, 1, 50, 4294967, 4294968, 2^32-1, 2^32 (clap rejects), ...} plus seeded values; the max_drift_ppb field of the published segment or the exit status is compared; non-trivial = X*1000 >= 2^32 - 2000 (boundary or unrepresentable)",
+    rule="the release `clockbound` binary built from the working tree is started in a private mount namespace (tmpfs /run) with --max-drift-rate X for X in {omitted, 0, 1, 50, 4294967, 4294968, 2^32-1, 2^32 (clap rejects), ...} plus seeded values; the max_drift_ppb field of the published segment or the exit status is compared; non-trivial = X*1000 >= 2^32 - 2000 (boundary or unrepresentable) || plus `@prior <ppb>`: the daemon restarts over a previous instance's valid segment whose live (Synchronized) record carries another rate (the published rate must be the configured one), and `@env`: every environment-variable-like name found in the release binary that could concern the rate (containing CLOCKBOUND / DRIFT / PPM / PPB) is set to 7",
     trusted_base=["clap's u32 parsing and process start-up are observed by running the binary, not modelled", "unshare -m + tmpfs isolation of /run"],
     technique='Lean 4 proof (omega) over all 32-bit rates + process-level differential runs of the release binary',
     level_text='Theorems C19.exact_or_refused, never_wrapped, default_one_ppm, published: the conversion yields exactly 1000 x rate or refuses, never a wrapped value, and the value reaches every published record. The 2^32 quantifier is carried by the theorem; ~60 release-binary runs per check sample it at the boundary.',
@@ -275,7 +275,7 @@ def sl_entry(oracle, nontrivial, rule_extra, **kw):
         oracle=oracle, gens=sl_gens, relevant=lambda c: kind(c) == 'sl', project=proj_sl,
         require={'ann': 'adequate'}, shrink=False,
         nontrivial=nontrivial,
-        rule="scenarios: initial segment {fresh, wiped, valid with even/odd/near-wrap generation}; one writer thread with 1-3 incarnations (new + 1-4 writes each, killed mid-update with probability 1/12 per step), 1-2 reader threads (open / snapshot sequences, re-opens); the real ShmWriter/ShmReader code runs as OS threads under a seeded baton-passing scheduler; each shared access is one step; loads return the newest admissible message with probability 3/5, otherwise a uniformly chosen admissible (stale) one; cells are copied in a random order. " + rule_extra,
+        rule="scenarios: initial segment {fresh, wiped, valid with even/odd/near-wrap generation}; one writer thread with 1-3 incarnations (new + 1-4 writes each, killed mid-update with probability 1/12 per step), 1-2 reader threads (open / snapshot sequences, re-opens); the real ShmWriter/ShmReader code runs as OS threads under a seeded baton-passing scheduler; each shared access is one step; loads return the newest admissible message with probability 3/5, otherwise a uniformly chosen admissible (stale) one; cells are copied in a random order.  `slx` lines (C01/C02/C03/C04/C18): the real snapshot() alone against scripted load results - first call under a continuously updating / dying / alternating writer, second call with the generation frozen odd (must serve the previous snapshot), third call with the generation stable at a new even value (must deliver a record copied during that call). " + rule_extra,
         trusted_base=SL_TB,
     )
     d.update(kw)
@@ -329,7 +329,7 @@ PROPS['C01'] = dict(
 )
 
 PROPS['C04'] = sl_entry('C04', lambda c: 'crash' in c.tags,
-    "plus `crashpt` lines (file level): the real ShmWriter::new + first write is killed at EVERY hook point / shared access (k = 0..23) over 9 prior file states {missing, empty, garbage, wiped, valid with even / odd / near-wrap generation}, with a real reader attached beforehand when the segment was usable; then a restarted writer publishes; observed: what the dead writer left, whether it can be opened, inode/length, what the attached and a fresh reader obtain. non-trivial = the writer was killed (tag crash)",
+    "plus `crashpt` lines (file level): the real ShmWriter::new + first write is killed at EVERY hook point / shared access (k = 0..23) over 9 prior file states {missing, empty, garbage, wiped, valid with even / odd / near-wrap generation} (+ layout versions 3 / 65535, and restarts over a file last modified two hours ago `@old` / with a non-UTF-8 name `@bin`), with a real reader attached beforehand when the segment was usable; then a restarted writer publishes; observed: what the dead writer left, whether it can be opened, inode/length, what the attached and a fresh reader obtain. non-trivial = the writer was killed (tag crash)",
     gens=lambda seed, th: [['slgen', seed, 30000 if th else 1200], ['crashgrid'], ['slxgen', 'all'] if th else ['slxgen'], ['hdr-seg', seed, 20000 if th else 1500]],
     relevant=lambda c: kind(c) in ('sl', 'crashpt', 'slx', 'seg'),
     also=['C16'],
